@@ -20,7 +20,7 @@ def gen_case(seed, idx, side, ncycles):
     return {"seed": seed, "idx": idx, "side": side, "ncycles": ncycles}
 
 
-def build_layout(rnd, late=None):
+def build_layout(rnd, late=None, more=0, more_rnd=None):
     """`late`: if given (a list), a call-back `late[0]()` is invoked once at `late[1]` registers — the
     caller constructs the Multiplexer there, so the remaining registers are added to the (still
     open) map after the multiplexer exists and before it is elaborated"""
@@ -43,6 +43,14 @@ def build_layout(rnd, late=None):
             regs.append(r)
         except ValueError:
             pass
+    if more:
+        for i in range(more):                       # a few more one-chunk registers wherever there is room (own stream)
+            r = El(more_rnd.choice([1, dw, max(dw - 1, 1)]), more_rnd.choice(["r", "w", "rw"]))
+            try:
+                mm.add_resource(r, name=f"x{i}", size=1)
+                regs.append(r)
+            except ValueError:
+                break
     ov = rnd.choice([None, None, None, 0, 1, 2, 3])
     return mm, regs, dw, aw, ov
 
@@ -58,9 +66,10 @@ def run_impl(case):
         # and its elaboration, and must be decoded like the others
         probe = lib.random.Random()
         probe.setstate(rnd.getstate())
-        ov_pre = build_layout(probe)[4]           # dry run: the sharing limit this case will draw
+        ov_pre = build_layout(probe)[4]           # dry run: the sharing limit this case will draw (extra registers do not change it)
         late = [lambda mm_: early.setdefault("mux", csr.Multiplexer(mm_, shadow_overlaps=ov_pre)), rnd2.randint(0, 2)]
-    mm, regs, dw, aw, ov = build_layout(rnd, late)
+    more = rnd2.choice([4, 6, 9, 12]) if rnd2.random() < 0.06 else 0
+    mm, regs, dw, aw, ov = build_layout(rnd, late, more, rnd2)
     if not regs:
         return {"skip": True}
     layout = {id(r): (s, e) for r, _, (s, e) in mm.resources()}
